@@ -8,6 +8,7 @@ import (
 	"crypto/sha256"
 	"crypto/sha512"
 	"encoding/base64"
+	stdxml "encoding/xml"
 	"errors"
 	"fmt"
 	"hash"
@@ -356,4 +357,39 @@ func SelfCheck(text, id string, cert *Cert, clk *dsig.Clock) error {
 	vc.Clock = clk
 	_, err = vc.Validate(view)
 	return err
+}
+
+// AppDecode is how the simulated application decodes a message into one of the library's types when it
+// calls an exported Validate* entry directly: encoding/xml matches attributes by local name only, so a
+// careful application first drops the attributes that are in a foreign namespace (x500:Recipient is not
+// the SAML Recipient). Character data is written back with CR escaped, as the library does.
+func AppDecode(raw string, v any) error {
+	d := etree.NewDocument()
+	if err := d.ReadFromString(raw); err != nil {
+		return err
+	}
+	if d.Root() == nil {
+		return stdxml.Unmarshal([]byte(raw), v)
+	}
+	var walk func(e *etree.Element)
+	walk = func(e *etree.Element) {
+		kept := e.Attr[:0]
+		for _, a := range e.Attr {
+			if a.Space == "" || a.Space == "xmlns" {
+				kept = append(kept, a)
+			}
+		}
+		e.Attr = kept
+		for _, c := range e.ChildElements() {
+			walk(c)
+		}
+	}
+	walk(d.Root())
+	d.WriteSettings.CanonicalText = true
+	d.WriteSettings.CanonicalAttrVal = true
+	b, err := d.WriteToBytes()
+	if err != nil {
+		return err
+	}
+	return stdxml.Unmarshal(b, v)
 }
